@@ -409,7 +409,7 @@ def r7(ctx):
 # round (that is what C09 says); the properties that merely depend on the loop need less, and need it along every path - through
 # the back edge as well.  Each obligation below is a necessary condition of the property named with it.
 def lifecycle(ctx, which):
-    """which: subset of {"fresh-stats", "refill-before-fit", "fit-pairs", "nothing-after-relabel"}"""
+    """which: subset of {"fresh-stats", "refill-before-fit", "fit-pairs", "bic-state", "nothing-after-relabel", "index-means-current"}"""
     saved_ev, ctx.evidence = ctx.evidence, True      # path facts of the round loop, not a shape template
     try:
         _lifecycle(ctx, which)
@@ -499,6 +499,20 @@ def _lifecycle(ctx, which):
                 found = f"`{arg.id}` defined at line(s) {sorted(cfg.nodes[i].lineno for i in defs)}"
             ctx.check(ok, fi, "the statistics phase fits the (repopulated) state of the previous relabel or the initial state", line=s_.lineno,
                       role="refill-before-fit:thread", expected="relabel / repopulate / initial state", found=found)
+    if "index-means-current" in which:
+        # C17: the stored cluster means the index reads were fitted to the labelling it is computed for
+        chs = calls_to(ana, fi, "fast_ticc.cluster_metrics.calinski_harabasz_index")
+        if not chs:
+            raise AnalysisError("the Calinski-Harabasz index is not computed in the main loop function")
+        cn = [cfg.node_of(c.node) for c in chs]
+        for name, srcs in (("relabel", rl), ("repopulate", rp)):
+            if not srcs:
+                continue
+            ctx.check(no_path(srcs, cn, st), fi, f"after `{name}` changed the labelling, the statistics are refreshed before the index reads the stored "
+                      "cluster means (on every path)", line=cn[0].lineno, role=f"index-means-current:{name}",
+                      expected=f"{name} ... statistics ... calinski_harabasz_index, or means computed from the current members",
+                      found=f"a path {name} -> calinski_harabasz_index without a statistics refresh: the index mixes the returned membership with means of an "
+                            "earlier one (they differ when the converged round repopulated a cluster)")
     if "fit-pairs" in which:
         # C16: at the BIC, every cluster's MRF is the one fitted to the covariance stored next to it
         bic = calls_to(ana, fi, "fast_ticc.cluster_metrics.bayesian_information_criterion")
